@@ -29,8 +29,6 @@ def run_seed(args):
     name, slot, props = args
     d = f'{VERIF}/seeded/{name}'
     wt = f'/tmp/mutchk/{slot}'
-    if not os.path.exists(wt):
-        sh(f'git -C /repo worktree add --detach {wt} HEAD -q')
     sh('git checkout -q --detach $(git -C /repo rev-parse HEAD) && git checkout -- . && git clean -fdq', wt)
     rc, out = sh(f'git apply {d}/patch.diff', wt)
     if rc != 0:
@@ -61,6 +59,13 @@ def main():
     by_slot = {}
     for j in jobs:
         by_slot.setdefault(j[1], []).append(j)
+    sh('git -C /repo worktree prune')
+    for slot in by_slot:      # serially: concurrent `git worktree add` calls race on the shared lock
+        wt = f'/tmp/mutchk/{slot}'
+        if not os.path.exists(wt):
+            rc, out = sh(f'git -C /repo worktree add -f --detach {wt} HEAD -q')
+            if rc != 0:
+                sys.exit('cannot create scratch worktree: ' + out)
     with ThreadPoolExecutor(12) as ex:
         results = dict(r for rs in ex.map(lambda js: [run_seed(j) for j in js], by_slot.values()) for r in rs)
     for s in range(12):
